@@ -92,7 +92,7 @@ package freelist
 //@   modifies nothing
 
 //@ func Interface.EstimatedWritePageSize
-//@   ensures result >= 16
+//@   ensures result >= 16 && result <= 1099511627776
 //@   modifies nothing
 
 //@ func Interface.Rollback
